@@ -19,7 +19,10 @@ def run(ctx, theorems, corr, oracle, quick_plan, thorough_plan, text, rule, corp
     extra: optional callable(ctx) -> (oracle_fail, corr_fail) for additional suites of the property."""
     pid = ctx.pid
     prop = prop_file or os.path.join(vlib.COQ, "Properties", pid + ".v")
-    proofs_ok = vlib.coq_prove(ctx, prop, theorems) if theorems else False
+    if isinstance(theorems, dict):      # several theorem files: {file: [theorems]}
+        proofs_ok = vlib.coq_prove_multi(ctx, [(os.path.join(vlib.COQ, "Properties", f), t) for f, t in theorems.items()])
+    else:
+        proofs_ok = vlib.coq_prove(ctx, prop, theorems) if theorems else False
     if not theorems:
         ctx.notes.append("%s: no theorem registered" % pid)
     o_fail, c_fail, mism = [], [], []
